@@ -11,7 +11,7 @@
    the WRITER model produced. *)
 From Coq Require Import List ZArith Bool Lia.
 From LA Require Import Gen.Defines Gen.FmtLayout Fmt.FmtNumDefs Fmt.FmtNumProofs Fmt.FmtTarDefs Fmt.FmtBufProofs
-  Fmt.FmtTarProofs Fmt.FmtCpioDefs Fmt.FmtCpioProofs Fmt.FmtArDefs Fmt.FmtWriteDefs.
+  Fmt.FmtTarProofs Fmt.FmtCpioDefs Fmt.FmtCpioProofs Fmt.FmtArDefs Fmt.FmtArProofs Fmt.FmtWriteDefs.
 Import ListNotations.
 Local Open Scope Z_scope.
 
@@ -54,20 +54,32 @@ Theorem C10_base256_roundtrip_12 : forall v, 0 <= v < two63 -> tar_atol (snd (fo
 Proof. exact base256_roundtrip_12. Qed.
 Print Assumptions C10_base256_roundtrip_12.
 
-(* gnutar format_number: octal below 8^s, base-256 above *)
-Theorem C10_gnutar_format_number_exact_8 : forall v s rest,
-  (0 < s <= 8)%nat -> 0 <= v < 4611686018427387904 ->
-  (if v <? zpow 8 s then stops 8 rest else rest = []) ->
-  fst (gnutar_format_number v s 8) = 0 /\ tar_atol (snd (gnutar_format_number v s 8) ++ rest) = v.
-Proof. exact gnutar_number_exact_8. Qed.
-Print Assumptions C10_gnutar_format_number_exact_8.
+(* base-256, 12-byte field (size, mtime): exact for every int64, negative values included *)
+Theorem C10_base256_roundtrip_12_all : forall v, - two63 <= v < two63 -> tar_atol (snd (format_256 v 12)) = v.
+Proof. exact base256_roundtrip_12_all. Qed.
+Print Assumptions C10_base256_roundtrip_12_all.
 
-Theorem C10_gnutar_format_number_exact_12 : forall v s rest,
-  (0 < s <= 12)%nat -> 0 <= v < two63 ->
-  (if v <? zpow 8 s then stops 8 rest else rest = []) ->
+(* gnutar format_number: octal on [0, 8^s), base-256 elsewhere; a zero result means the window decodes to the value,
+   and an 8-byte field refuses everything outside [-2^62, 2^62) *)
+Theorem C10_gnutar_format_number_ok_8 : forall v s rest,
+  (0 < s <= 8)%nat ->
+  (if (0 <=? v) && (v <? zpow 8 s) then stops 8 rest else rest = []) ->
+  fst (gnutar_format_number v s 8) = 0 ->
+  tar_atol (snd (gnutar_format_number v s 8) ++ rest) = v.
+Proof. exact gnutar_number_ok_8. Qed.
+Print Assumptions C10_gnutar_format_number_ok_8.
+
+Theorem C10_gnutar_format_number_refuses_8 : forall v s, (0 < s <= 8)%nat ->
+  ~ (- 4611686018427387904 <= v < 4611686018427387904) -> fst (gnutar_format_number v s 8) = -1.
+Proof. exact gnutar_number_refuses_8. Qed.
+Print Assumptions C10_gnutar_format_number_refuses_8.
+
+Theorem C10_gnutar_format_number_ok_12 : forall v s rest,
+  (0 < s <= 12)%nat -> - two63 <= v < two63 ->
+  (if (0 <=? v) && (v <? zpow 8 s) then stops 8 rest else rest = []) ->
   fst (gnutar_format_number v s 12) = 0 /\ tar_atol (snd (gnutar_format_number v s 12) ++ rest) = v.
-Proof. exact gnutar_number_exact_12. Qed.
-Print Assumptions C10_gnutar_format_number_exact_12.
+Proof. exact gnutar_number_ok_12. Qed.
+Print Assumptions C10_gnutar_format_number_ok_12.
 
 (* cpio odc / newc fields: the value if it fits, the saturated maximum otherwise (never an error) *)
 Theorem C10_odc_field_decodes : forall v w, (0 < w <= 20)%nat ->
@@ -209,47 +221,35 @@ Proof. exact v7tar_ok_mtime. Qed.
 Print Assumptions C10_ok_means_exact_v7tar_mtime.
 
 (* ================================================================== 4. gnutar *)
-(* uid, gid, size are exact on the stated ranges (whatever the status: the formatter cannot fail there) *)
-Theorem C10_exact_in_range_gnutar_uid : forall name lk un gn e t, 0 <= e_uid e < 4611686018427387904 ->
+(* a header that is written (status OK or WARN) has exact uid, gid, size and mtime for every int64 value:
+   out-of-range ids are refused by the formatter (FAILED), size and mtime have 12-byte base-256 fields *)
+Theorem C10_ok_means_exact_gnutar_uid : forall name lk un gn e t, ST_WARN <= fst (gnutar_header name lk un gn e t) ->
   tar_atol (slice R_tar_uid_offset R_tar_uid_size (snd (gnutar_header name lk un gn e t))) = e_uid e.
-Proof. exact gnutar_uid_exact. Qed.
-Print Assumptions C10_exact_in_range_gnutar_uid.
-Theorem C10_exact_in_range_gnutar_gid : forall name lk un gn e t, 0 <= e_gid e < 4611686018427387904 ->
+Proof. exact gnutar_ok_uid. Qed.
+Print Assumptions C10_ok_means_exact_gnutar_uid.
+Theorem C10_ok_means_exact_gnutar_gid : forall name lk un gn e t, ST_WARN <= fst (gnutar_header name lk un gn e t) ->
   tar_atol (slice R_tar_gid_offset R_tar_gid_size (snd (gnutar_header name lk un gn e t))) = e_gid e.
-Proof. exact gnutar_gid_exact. Qed.
-Print Assumptions C10_exact_in_range_gnutar_gid.
-Theorem C10_exact_in_range_gnutar_size : forall name lk un gn e t, 0 <= size_of e < two63 ->
+Proof. exact gnutar_ok_gid. Qed.
+Print Assumptions C10_ok_means_exact_gnutar_gid.
+Theorem C10_ok_means_exact_gnutar_size : forall name lk un gn e t, ST_WARN <= fst (gnutar_header name lk un gn e t) ->
+  - two63 <= size_of e < two63 ->
   tar_atol (slice R_tar_size_offset R_tar_size_size (snd (gnutar_header name lk un gn e t))) = size_of e.
-Proof. exact gnutar_size_exact. Qed.
-Print Assumptions C10_exact_in_range_gnutar_size.
-
-Definition gnu_hdr (e : entry) : Z * list Z :=
-  gnutar_header (ob (e_path e)) (linkname_of e) (ob (e_uname e)) (ob (e_gname e)) e 48.
-
-(* status 0 does NOT mean exact for: uid/gid >= 2^62 (base-256 sign bit), mtime outside [0, 2^33)
-   (format_octal result dropped, archive_write_set_format_gnutar.c:666), uname/gname longer than 32 bytes
-   (silently truncated, :607 and :621) *)
-Theorem C10_ok_means_exact_gnutar_uid_refuted : exists e,
-  fst (gnu_hdr e) = 0 /\ tar_atol (slice R_tar_uid_offset R_tar_uid_size (snd (gnu_hdr e))) <> e_uid e.
-Proof. exists (reg_entry [120] 4611686018427387904 0). split; vm_compute; [reflexivity | discriminate]. Qed.
-Print Assumptions C10_ok_means_exact_gnutar_uid_refuted.
-Theorem C10_ok_means_exact_gnutar_mtime_refuted : exists e,
-  fst (gnu_hdr e) = 0 /\ tar_atol (slice R_tar_mtime_offset R_tar_mtime_size (snd (gnu_hdr e))) <> e_mtime e.
-Proof. exists (reg_entry [120] 0 8589934592). split; vm_compute; [reflexivity | discriminate]. Qed.
-Print Assumptions C10_ok_means_exact_gnutar_mtime_refuted.
-Theorem C10_ok_means_exact_gnutar_mtime_negative_refuted : exists e,
-  fst (gnu_hdr e) = 0 /\ tar_atol (slice R_tar_mtime_offset R_tar_mtime_size (snd (gnu_hdr e))) <> e_mtime e.
-Proof. exists (reg_entry [120] 0 (-1)). split; vm_compute; [reflexivity | discriminate]. Qed.
-Print Assumptions C10_ok_means_exact_gnutar_mtime_negative_refuted.
-Definition named_entry (un : list Z) : entry :=
-  mkEntry (Some [120]) None None (Some un) None (IFREG + 420) 0 0 (Some 0) 0 0 0 1 0 [].
-Theorem C10_ok_means_exact_gnutar_uname_refuted : exists e,
-  fst (gnu_hdr e) = 0 /\ cstr (slice R_tar_uname_offset R_tar_uname_size (snd (gnu_hdr e))) <> ob (e_uname e).
-Proof.
-  exists (named_entry (repeat 117 33)). split; [vm_compute; reflexivity|].
-  intros H. apply (f_equal (@length Z)) in H. vm_compute in H. discriminate.
-Qed.
-Print Assumptions C10_ok_means_exact_gnutar_uname_refuted.
+Proof. exact gnutar_ok_size. Qed.
+Print Assumptions C10_ok_means_exact_gnutar_size.
+Theorem C10_ok_means_exact_gnutar_mtime : forall name lk un gn e t, ST_WARN <= fst (gnutar_header name lk un gn e t) ->
+  - two63 <= e_mtime e < two63 ->
+  tar_atol (slice R_tar_mtime_offset R_tar_mtime_size (snd (gnutar_header name lk un gn e t))) = e_mtime e.
+Proof. exact gnutar_ok_mtime. Qed.
+Print Assumptions C10_ok_means_exact_gnutar_mtime.
+(* status exactly OK: user and group name fit (a longer one is truncated with ARCHIVE_WARN) and come back *)
+Theorem C10_ok_means_exact_gnutar_uname : forall name lk un gn e t, fst (gnutar_header name lk un gn e t) = 0 -> no_nul un ->
+  cstr (slice R_tar_uname_offset R_tar_uname_size (snd (gnutar_header name lk un gn e t))) = un.
+Proof. exact gnutar_ok_uname. Qed.
+Print Assumptions C10_ok_means_exact_gnutar_uname.
+Theorem C10_ok_means_exact_gnutar_gname : forall name lk un gn e t, fst (gnutar_header name lk un gn e t) = 0 -> no_nul gn ->
+  cstr (slice R_tar_gname_offset R_tar_gname_size (snd (gnutar_header name lk un gn e t))) = gn.
+Proof. exact gnutar_ok_gname. Qed.
+Print Assumptions C10_ok_means_exact_gnutar_gname.
 
 (* a refused gnutar entry may already have written its 'L' long-name pseudo entry: a socket (unsupported type)
    with a 101-byte name returns ARCHIVE_FAILED after 1024 bytes went out, and the NEXT entry inherits the name *)
@@ -262,57 +262,54 @@ Qed.
 Print Assumptions C10_refused_writes_nothing_gnutar_refuted.
 
 (* ================================================================== 5. cpio odc *)
-(* the one result write_header looks at: status OK means the file size field is exact *)
-Theorem C10_ok_means_exact_odc_filesize : forall st e st' out rem,
-  odc_write_header st e = (st', ST_OK, out, rem) ->
+(* a written header (status OK or WARN) has an exact file size field *)
+Theorem C10_ok_means_exact_odc_filesize : forall st e st' ret out rem,
+  odc_write_header st e = (st', ret, out, rem) -> ST_WARN <= ret ->
   cpio_atol8 (slice ODC_c_filesize_offset ODC_c_filesize_size (firstn 76 out))
   = if (0 <? length (sym_of e))%nat then lenZ (sym_of e) else body_size e.
 Proof. exact odc_ok_filesize. Qed.
 Print Assumptions C10_ok_means_exact_odc_filesize.
 
-(* every other numeric field: "TODO: Set ret_final to ARCHIVE_WARN if any of these overflow"
-   (archive_write_set_format_cpio_odc.c:343) - status OK with a saturated field *)
+(* status OK: uid, gid, link count, mtime, rdev of device nodes and the name size read back as supplied
+   (an overflow is stored saturated with ARCHIVE_WARN, a name the size field cannot describe is refused) *)
+Theorem C10_ok_means_exact_odc_uid : forall st st' e out rem, odc_write_header st e = (st', ST_OK, out, rem) ->
+  cpio_atol8 (slice ODC_c_uid_offset ODC_c_uid_size (firstn 76 out)) = e_uid e.
+Proof. exact odc_ok_uid. Qed.
+Print Assumptions C10_ok_means_exact_odc_uid.
+Theorem C10_ok_means_exact_odc_gid : forall st st' e out rem, odc_write_header st e = (st', ST_OK, out, rem) ->
+  cpio_atol8 (slice ODC_c_gid_offset ODC_c_gid_size (firstn 76 out)) = e_gid e.
+Proof. exact odc_ok_gid. Qed.
+Print Assumptions C10_ok_means_exact_odc_gid.
+Theorem C10_ok_means_exact_odc_nlink : forall st st' e out rem, odc_write_header st e = (st', ST_OK, out, rem) ->
+  cpio_atol8 (slice ODC_c_nlink_offset ODC_c_nlink_size (firstn 76 out)) = e_nlink e.
+Proof. exact odc_ok_nlink. Qed.
+Print Assumptions C10_ok_means_exact_odc_nlink.
+Theorem C10_ok_means_exact_odc_mtime : forall st st' e out rem, odc_write_header st e = (st', ST_OK, out, rem) ->
+  cpio_atol8 (slice ODC_c_mtime_offset ODC_c_mtime_size (firstn 76 out)) = e_mtime e.
+Proof. exact odc_ok_mtime. Qed.
+Print Assumptions C10_ok_means_exact_odc_mtime.
+Theorem C10_ok_means_exact_odc_rdev : forall st st' e out rem, odc_write_header st e = (st', ST_OK, out, rem) ->
+  is_dev e = true -> cpio_atol8 (slice ODC_c_rdev_offset ODC_c_rdev_size (firstn 76 out)) = s64 (e_rdev e).
+Proof. exact odc_ok_rdev. Qed.
+Print Assumptions C10_ok_means_exact_odc_rdev.
+Theorem C10_ok_means_exact_odc_namesize : forall st st' e out rem, odc_write_header st e = (st', ST_OK, out, rem) ->
+  cpio_atol8 (slice ODC_c_namesize_offset ODC_c_namesize_size (firstn 76 out)) = lenZ (ob (e_path e)) + 1.
+Proof. exact odc_ok_namesize. Qed.
+Print Assumptions C10_ok_means_exact_odc_namesize.
+
+(* NOT checked by the writer: st_dev (archive_write_set_format_cpio_odc.c, format_octal(archive_entry_dev(entry)...)
+   result dropped) - status OK with a saturated field *)
 Definition odc_out (e : entry) : Z * list Z :=
   let '(_, st, out, _) := odc_write_header cpio_init e in (st, out).
 Definition num_entry (uid gid mtime dev nlink : Z) : entry :=
   mkEntry (Some [120]) None None None None (IFREG + 420) uid gid (Some 0) mtime dev 0 nlink 0 [].
-
-Theorem C10_ok_means_exact_odc_uid_refuted : exists e,
-  fst (odc_out e) = ST_OK /\ cpio_atol8 (slice ODC_c_uid_offset ODC_c_uid_size (snd (odc_out e))) <> e_uid e.
-Proof. exists (num_entry 262144 0 0 0 1). split; vm_compute; [reflexivity | discriminate]. Qed.
-Print Assumptions C10_ok_means_exact_odc_uid_refuted.
-Theorem C10_ok_means_exact_odc_gid_refuted : exists e,
-  fst (odc_out e) = ST_OK /\ cpio_atol8 (slice ODC_c_gid_offset ODC_c_gid_size (snd (odc_out e))) <> e_gid e.
-Proof. exists (num_entry 0 262144 0 0 1). split; vm_compute; [reflexivity | discriminate]. Qed.
-Print Assumptions C10_ok_means_exact_odc_gid_refuted.
-Theorem C10_ok_means_exact_odc_mtime_refuted : exists e,
-  fst (odc_out e) = ST_OK /\ cpio_atol8 (slice ODC_c_mtime_offset ODC_c_mtime_size (snd (odc_out e))) <> e_mtime e.
-Proof. exists (num_entry 0 0 8589934592 0 1). split; vm_compute; [reflexivity | discriminate]. Qed.
-Print Assumptions C10_ok_means_exact_odc_mtime_refuted.
 Theorem C10_ok_means_exact_odc_dev_refuted : exists e,
   fst (odc_out e) = ST_OK /\ cpio_atol8 (slice ODC_c_dev_offset ODC_c_dev_size (snd (odc_out e))) <> e_dev e.
 Proof. exists (num_entry 0 0 0 262144 1). split; vm_compute; [reflexivity | discriminate]. Qed.
 Print Assumptions C10_ok_means_exact_odc_dev_refuted.
-Theorem C10_ok_means_exact_odc_nlink_refuted : exists e,
-  fst (odc_out e) = ST_OK /\ cpio_atol8 (slice ODC_c_nlink_offset ODC_c_nlink_size (snd (odc_out e))) <> e_nlink e.
-Proof. exists (num_entry 0 0 0 0 262144). split; vm_compute; [reflexivity | discriminate]. Qed.
-Print Assumptions C10_ok_means_exact_odc_nlink_refuted.
-(* the name size field saturates too: a 262143-byte pathname is accepted and the archive is unreadable *)
-Theorem C10_ok_means_exact_odc_namesize_refuted : exists e,
-  fst (odc_out e) = ST_OK /\
-  cpio_atol8 (slice ODC_c_namesize_offset ODC_c_namesize_size (snd (odc_out e))) <> lenZ (ob (e_path e)) + 1.
-Proof.
-  exists (reg_entry (repeat 97 262143) 0 0). split; [vm_compute; reflexivity|].
-  unfold odc_out, odc_write_header. cbv zeta.
-  change (synthesize_ino cpio_init (reg_entry (repeat 97 262143) 0 0)) with (cpio_init, 0).
-  cbv iota. change (0 <? 0) with false. change (262143 <? 0) with false. cbv iota.
-  replace (negb (fst (odc_filesize (reg_entry (repeat 97 262143) 0 0)) =? 0)) with false by (vm_compute; reflexivity).
-  cbv iota. cbn [snd].
-  rewrite slice_app_l by (rewrite odc_block_length; unfold ODC_c_namesize_offset, ODC_c_namesize_size; lia).
-  rewrite odc_slice_namesize. rewrite odc_field_decodes by (unfold ODC_c_namesize_size; lia).
-  vm_compute. discriminate.
-Qed.
-Print Assumptions C10_ok_means_exact_odc_namesize_refuted.
+(* the checked fields do warn: the former witnesses now get ARCHIVE_WARN *)
+Example C10_odc_uid_overflow_warns : fst (odc_out (num_entry 262144 0 0 0 1)) = ST_WARN.
+Proof. vm_compute. reflexivity. Qed.
 
 (* ================================================================== 6. cpio newc *)
 Theorem C10_ok_means_exact_newc_filesize : forall e ret out rem,
@@ -323,28 +320,21 @@ Proof. exact newc_ok_filesize. Qed.
 Print Assumptions C10_ok_means_exact_newc_filesize.
 Theorem C10_ok_means_exact_newc_ino : forall e out rem,
   newc_write_header e = (ST_OK, out, rem) -> 0 <= e_ino e ->
-  cpio_atol16 (slice NEWC_c_ino_offset NEWC_c_ino_size (newc_block e)) = e_ino e.
+  cpio_atol16 (slice NEWC_c_ino_offset NEWC_c_ino_size (firstn 110 out)) = e_ino e.
 Proof. exact newc_ok_ino. Qed.
 Print Assumptions C10_ok_means_exact_newc_ino.
-
-Definition newc_out (e : entry) : Z * list Z := let '(st, out, _) := newc_write_header e in (st, out).
-(* archive_write_set_format_cpio_newc.c:280, same TODO *)
-Theorem C10_ok_means_exact_newc_uid_refuted : exists e,
-  fst (newc_out e) = ST_OK /\ cpio_atol16 (slice NEWC_c_uid_offset NEWC_c_uid_size (snd (newc_out e))) <> e_uid e.
-Proof. exists (num_entry 4294967296 0 0 0 1). split; vm_compute; [reflexivity | discriminate]. Qed.
-Print Assumptions C10_ok_means_exact_newc_uid_refuted.
-Theorem C10_ok_means_exact_newc_gid_refuted : exists e,
-  fst (newc_out e) = ST_OK /\ cpio_atol16 (slice NEWC_c_gid_offset NEWC_c_gid_size (snd (newc_out e))) <> e_gid e.
-Proof. exists (num_entry 0 4294967296 0 0 1). split; vm_compute; [reflexivity | discriminate]. Qed.
-Print Assumptions C10_ok_means_exact_newc_gid_refuted.
-Theorem C10_ok_means_exact_newc_mtime_refuted : exists e,
-  fst (newc_out e) = ST_OK /\ cpio_atol16 (slice NEWC_c_mtime_offset NEWC_c_mtime_size (snd (newc_out e))) <> e_mtime e.
-Proof. exists (num_entry 0 0 4294967296 0 1). split; vm_compute; [reflexivity | discriminate]. Qed.
-Print Assumptions C10_ok_means_exact_newc_mtime_refuted.
-Theorem C10_ok_means_exact_newc_mtime_negative_refuted : exists e,
-  fst (newc_out e) = ST_OK /\ cpio_atol16 (slice NEWC_c_mtime_offset NEWC_c_mtime_size (snd (newc_out e))) <> e_mtime e.
-Proof. exists (num_entry 0 0 (-1) 0 1). split; vm_compute; [reflexivity | discriminate]. Qed.
-Print Assumptions C10_ok_means_exact_newc_mtime_negative_refuted.
+Theorem C10_ok_means_exact_newc_uid : forall e out rem, newc_write_header e = (ST_OK, out, rem) ->
+  cpio_atol16 (slice NEWC_c_uid_offset NEWC_c_uid_size (firstn 110 out)) = e_uid e.
+Proof. exact newc_ok_uid. Qed.
+Print Assumptions C10_ok_means_exact_newc_uid.
+Theorem C10_ok_means_exact_newc_gid : forall e out rem, newc_write_header e = (ST_OK, out, rem) ->
+  cpio_atol16 (slice NEWC_c_gid_offset NEWC_c_gid_size (firstn 110 out)) = e_gid e.
+Proof. exact newc_ok_gid. Qed.
+Print Assumptions C10_ok_means_exact_newc_gid.
+Theorem C10_ok_means_exact_newc_mtime : forall e out rem, newc_write_header e = (ST_OK, out, rem) ->
+  cpio_atol16 (slice NEWC_c_mtime_offset NEWC_c_mtime_size (firstn 110 out)) = e_mtime e.
+Proof. exact newc_ok_mtime. Qed.
+Print Assumptions C10_ok_means_exact_newc_mtime.
 
 (* ================================================================== 7. binary cpio *)
 Theorem C10_ok_means_exact_bin_filesize : forall pwb st e st' out rem,
@@ -354,42 +344,50 @@ Theorem C10_ok_means_exact_bin_filesize : forall pwb st e st' out rem,
   = if (0 <? length (sym_of e))%nat then lenZ (sym_of e) else body_size e.
 Proof. exact bin_ok_filesize. Qed.
 Print Assumptions C10_ok_means_exact_bin_filesize.
+Theorem C10_ok_means_exact_bin_uid : forall pwb st st' e out rem, bin_write_header pwb st e = (st', ST_OK, out, rem) ->
+  0 <= e_uid e -> le2 (slice R_bin_uid_offset R_bin_uid_size (firstn 26 out)) = e_uid e.
+Proof. exact bin_ok_uid. Qed.
+Print Assumptions C10_ok_means_exact_bin_uid.
+Theorem C10_ok_means_exact_bin_gid : forall pwb st st' e out rem, bin_write_header pwb st e = (st', ST_OK, out, rem) ->
+  0 <= e_gid e -> le2 (slice R_bin_gid_offset R_bin_gid_size (firstn 26 out)) = e_gid e.
+Proof. exact bin_ok_gid. Qed.
+Print Assumptions C10_ok_means_exact_bin_gid.
+Theorem C10_ok_means_exact_bin_nlink : forall pwb st st' e out rem, bin_write_header pwb st e = (st', ST_OK, out, rem) ->
+  0 <= e_nlink e -> le2 (slice R_bin_nlink_offset R_bin_nlink_size (firstn 26 out)) = e_nlink e.
+Proof. exact bin_ok_nlink. Qed.
+Print Assumptions C10_ok_means_exact_bin_nlink.
+Theorem C10_ok_means_exact_bin_mtime : forall pwb st st' e out rem, bin_write_header pwb st e = (st', ST_OK, out, rem) ->
+  le4 (slice R_bin_mtime_offset R_bin_mtime_size (firstn 26 out)) = e_mtime e.
+Proof. exact bin_ok_mtime. Qed.
+Print Assumptions C10_ok_means_exact_bin_mtime.
+Theorem C10_ok_means_exact_bin_namesize : forall pwb st st' e out rem, bin_write_header pwb st e = (st', ST_OK, out, rem) ->
+  le2 (slice R_bin_namesize_offset R_bin_namesize_size (firstn 26 out)) = lenZ (ob (e_path e)) + 1.
+Proof. exact bin_ok_namesize. Qed.
+Print Assumptions C10_ok_means_exact_bin_namesize.
 
+(* NOT checked: st_dev, (uint16_t) cast *)
 Definition bin_out (e : entry) : Z * list Z :=
   let '(_, st, out, _) := bin_write_header false cpio_init e in (st, out).
-(* (uint16_t) / (uint32_t) casts, archive_write_set_format_cpio_binary.c:429-475 *)
-Theorem C10_ok_means_exact_bin_uid_refuted : exists e,
-  fst (bin_out e) = ST_OK /\ le2 (slice R_bin_uid_offset R_bin_uid_size (snd (bin_out e))) <> e_uid e.
-Proof. exists (num_entry 65536 0 0 0 1). split; vm_compute; [reflexivity | discriminate]. Qed.
-Print Assumptions C10_ok_means_exact_bin_uid_refuted.
-Theorem C10_ok_means_exact_bin_gid_refuted : exists e,
-  fst (bin_out e) = ST_OK /\ le2 (slice R_bin_gid_offset R_bin_gid_size (snd (bin_out e))) <> e_gid e.
-Proof. exists (num_entry 0 65536 0 0 1). split; vm_compute; [reflexivity | discriminate]. Qed.
-Print Assumptions C10_ok_means_exact_bin_gid_refuted.
-Theorem C10_ok_means_exact_bin_mtime_refuted : exists e,
-  fst (bin_out e) = ST_OK /\ le4 (slice R_bin_mtime_offset R_bin_mtime_size (snd (bin_out e))) <> e_mtime e.
-Proof. exists (num_entry 0 0 4294967296 0 1). split; vm_compute; [reflexivity | discriminate]. Qed.
-Print Assumptions C10_ok_means_exact_bin_mtime_refuted.
 Theorem C10_ok_means_exact_bin_dev_refuted : exists e,
   fst (bin_out e) = ST_OK /\ le2 (slice R_bin_dev_offset R_bin_dev_size (snd (bin_out e))) <> e_dev e.
 Proof. exists (num_entry 0 0 0 65536 1). split; vm_compute; [reflexivity | discriminate]. Qed.
 Print Assumptions C10_ok_means_exact_bin_dev_refuted.
-Theorem C10_ok_means_exact_bin_nlink_refuted : exists e,
-  fst (bin_out e) = ST_OK /\ le2 (slice R_bin_nlink_offset R_bin_nlink_size (snd (bin_out e))) <> e_nlink e.
-Proof. exists (num_entry 0 0 0 0 65536). split; vm_compute; [reflexivity | discriminate]. Qed.
-Print Assumptions C10_ok_means_exact_bin_nlink_refuted.
 
 (* ================================================================== 8. ar *)
-(* a refused member (ARCHIVE_WARN, nothing written) still gets the previous member's padding byte at
-   finish_entry, because entry_padding is never reset: the archive is damaged *)
+(* a refused member (ARCHIVE_WARN, nothing written) leaves nothing behind: the header call clears
+   entry_bytes_remaining and entry_padding, so the finish_entry that follows writes nothing *)
+Theorem C10_refused_leaves_archive_intact_ar : forall gnu st e st' out,
+  ar_header gnu st e = (st', ST_WARN, out) -> ar_finish st' = (ST_OK, []).
+Proof. exact ar_refused_writes_nothing. Qed.
+Print Assumptions C10_refused_leaves_archive_intact_ar.
+
 Definition ar_member (name : list Z) (uid size : Z) (body : list Z) : entry :=
   mkEntry (Some name) None None None None (IFREG + 420) uid 0 (Some size) 0 0 0 1 0 [body].
-Theorem C10_refused_leaves_archive_intact_ar_refuted :
-  let es := [(ar_member [97] 0 1 [65], false); (ar_member [120] 1000000 0 [], false)] in
+Example C10_ar_refusal_example :
+  let es := [(ar_member [97] 0 1 [65], false); (ar_member [120] 1000000 0 [], false); (ar_member [98] 0 1 [66], false)] in
   let '(recs, _, out) := write_archive ArBsd es in
-  map r_hdr recs = [ST_OK; ST_WARN] /\ skipn 70 out = [10].
+  map r_hdr recs = [ST_OK; ST_WARN; ST_OK] /\ length out = (8 + 62 + 62)%nat.
 Proof. vm_compute. split; reflexivity. Qed.
-Print Assumptions C10_refused_leaves_archive_intact_ar_refuted.
 
 (* ================================================================== non-vacuity *)
 (* a concrete entry with every field at its border is accepted with status 0 (the hypotheses of the
